@@ -155,7 +155,7 @@ prop("C04",
      bounds="every From/TryFrom impl found in /repo/src on this run, each over the ENTIRE source type "
             "(all 2^128 values for i128/u128, all usize/isize) - no sampling; T::new ok/must-panic over "
             "the whole repr type in configurations default(std) and --no-default-features; MIN/MAX/"
-            "Default; FromStr over all ASCII strings up to length 4 (quick) / 6 resp. 5 (thorough); "
+            "Default; FromStr over all ASCII strings of length 0..=6; "
             "accessor values of all valid messages; constructors, encoders and scanner outputs via the "
             "in-range assertions of the C02/C06/C07/C09/C11/C14 harnesses",
      outside="strings longer than the stated length or containing non-ASCII bytes; unsafe "
@@ -163,8 +163,8 @@ prop("C04",
 prop("C05",
      bounds="every From/TryFrom impl found in /repo/src on this run over the entire source type; "
             "Eq/Ord/PartialOrd/Hash/max/Copy over all pairs of values; MIN/MAX/Default; FromStr over all "
-            "ASCII strings of length 0..=4 (quick), 0..=6 for U14 and 0..=5 for the u8-backed types "
-            "(thorough), unwind 9 with unwinding assertions; Display of every value into a stack buffer",
+            "ASCII byte strings of length 0..=6 (both tiers; 128^6 + ... strings per type, decided "
+            "symbolically), unwind 9 with unwinding assertions; Display of every value into a stack buffer",
      outside="strings longer than the bound, non-ASCII bytes, Display with width/fill/precision flags")
 
 # ------------------------------------------------------------------------------------------------
@@ -431,7 +431,9 @@ prop("C18",
             "(call must not return) whose twins with valid arguments verify cleanly; quick = the harnesses "
             "with an estimated cost of at most 45 s plus the scanner steps of two channels; thorough = all",
      outside="the real Instant::now() (hooked out); the panic machinery itself after a documented panic; "
-             "Display with width/fill flags; to_string() (allocates in the caller by definition)")
+             "Display with width/fill flags; Display of the three error types (their derived Display goes "
+             "through Formatter::pad, whose string loops did not verify within reach under Kani - tried and "
+             "dropped); to_string() (allocates in the caller by definition)")
 add("c18_w_box", "c18::w_box", ["C18"], "witness: Box::new must be caught by the allocation stub",
     expect="witness_fail")
 add("c18_w_vec", "c18::w_vec", ["C18"], "witness: Vec::push must be caught by the allocation stub",
